@@ -47,6 +47,18 @@ theorem outside_never_reaches {E : List Nat} {m t : Nat} (h : closedOK E m = tru
   rw [ht] at this
   exact Bool.noConfusion this
 
+/-- a chain over `U ++ L` either stays in `U`, or follows `U` up to a first edge of `L` -/
+theorem reaches_split {U L : List Nat} {a c : Nat} (hr : Reaches (U ++ L) a c) :
+    Reaches U a c ∨ ∃ x y, Reaches U a x ∧ y < 4096 ∧ x * 4096 + y ∈ L ∧ Reaches (U ++ L) y c := by
+  induction hr with
+  | refl a => exact Or.inl (.refl a)
+  | @step a b c hb he hr ih =>
+    rcases List.mem_append.mp he with hu | hl
+    · rcases ih with h | ⟨x, y, h1, h2, h3, h4⟩
+      · exact Or.inl (.step hb hu h)
+      · exact Or.inr ⟨x, y, .step hb hu h1, h2, h3, h4⟩
+    · exact Or.inr ⟨a, b, .refl a, hb, hl, hr⟩
+
 /-- all listed functions are outside the mask -/
 def allOutside (m : Nat) (l : List Nat) : Bool := l.all fun f => !(inMask m f)
 
